@@ -104,9 +104,16 @@ EqR(a, b) == a.ty = b.ty /\ Canon(a) = Canon(b)
 Eq(a, b) == EqR(a, b)
 
 \* ------------------------------------------------------------------ ordering
-RECURSIVE ComparableRep(_)
-ComparableRep(r) == \/ r.k \in {"String", "Character", "Bool", "Num", "Fix"}
-                    \/ r.k = "Arr" /\ \A i \in 1..Len(r.xs) : ComparableRep(r.xs[i])
+\* comparable static types: numbers, strings, characters, booleans, and arrays of comparable types
+ComparableBase == {"String", "Character", "Bool", "Fix64", "UFix64", "Fix128", "UFix128",
+                   "Int", "Int8", "Int16", "Int32", "Int64", "Int128", "Int256",
+                   "UInt", "UInt8", "UInt16", "UInt32", "UInt64", "UInt128", "UInt256",
+                   "Word8", "Word16", "Word32", "Word64", "Word128", "Word256"}
+RECURSIVE ComparableTy(_)
+ComparableTy(ty) == IF Len(ty) >= 2 /\ SubSeq(ty, 1, 1) = "[" /\ SubSeq(ty, Len(ty), Len(ty)) = "]"
+                    THEN ComparableTy(SubSeq(ty, 2, Len(ty) - 1))
+                    ELSE ty \in ComparableBase
+ComparableRep(r) == ComparableTy(r.ty)
 RECURSIVE LessR(_, _)
 RECURSIVE LessSeq(_, _)
 LessSeq(xs, ys) == IF ys = << >> THEN FALSE ELSE IF xs = << >> THEN TRUE
@@ -135,12 +142,12 @@ Remove(d, key) ==
        [d |-> SubSeq(d, 1, i - 1) \o SubSeq(d, i + 1, Len(d)), old |-> d[i].val]
 
 \* ------------------------------------------------------------------ laws
-EqLaws(a, b, c) == /\ Eq(a, a)
-                   /\ Eq(a, b) <=> Eq(b, a)
-                   /\ (Eq(a, b) /\ Eq(b, c)) => Eq(a, c)
-OrderLaws(a, b, c) ==                             \* a, b, c comparable reps of one static type
+EqLaws(a, b) == Eq(a, a) /\ (Eq(a, b) <=> Eq(b, a))                                          \* reflexive, symmetric
+EqTransitive(a, b, c) == (Eq(a, b) /\ Eq(b, c)) => Eq(a, c)
+OrderLaws(a, b) ==                                \* a, b comparable reps of one static type
   /\ ~LessR(a, a)
   /\ (Eq(a, b) /\ ~LessR(a, b) /\ ~LessR(b, a)) \/ (~Eq(a, b) /\ (LessR(a, b) # LessR(b, a)))     \* exactly one of <, =, >
+OrderTransitive(a, b, c) ==
   /\ (LessR(a, b) /\ LessR(b, c)) => LessR(a, c)
   /\ (Eq(a, b) => (LessR(a, c) <=> LessR(b, c)) /\ (LessR(c, a) <=> LessR(c, b)))                 \* consistent with ==
 \* equal hashable values are interchangeable as keys: inserting both leaves one entry, either finds it
